@@ -74,6 +74,11 @@ PROPS = {
         "quick": {"stages": [st("^TestC13Termination", 600), st("^TestC13WebSocket", 3, shrinktime="40s")]},
         "thorough": {"stages": [st("^TestC13Termination", 5000, shards=12), st("^TestC13Termination", 800, shards=3, race=True), st("^TestC13WebSocket", 20, shards=1, shrinktime="60s")]},
     },
+    "C20": {
+        "pkg": "core", "level": "exploration",
+        "quick": {"stages": [st("^TestC20", 3000)]},
+        "thorough": {"stages": [st("^TestC20", 40000, shards=8)]},
+    },
     "C10": {
         "pkg": "core", "level": "exploration",
         "quick": {"stages": [st("^TestC10", 15000)]},
